@@ -911,8 +911,14 @@ class Check:
             groups.setdefault(gk, []).append((stn, c, reason))
         for gk, items in list(groups.items())[:12]:
             items.sort(key=lambda x: len(x[1]))
-            stn, c, reason = items[0]
-            report_failing_input(stn, c, reason)
+            # a listed open finding must not hide other failing inputs whose reason happens to have the same shape:
+            # report the shortest case that matches a listed finding (prints KNOWN-FINDING) AND the shortest that does not
+            listed = [x for x in items if self.match_known(x[1], x[2], x[0])]
+            others = [x for x in items if not self.match_known(x[1], x[2], x[0])]
+            for sub in (listed, others):
+                if sub:
+                    stn, c, reason = sub[0]
+                    report_failing_input(stn, c, reason)
 
         broken = None
         if not pr['ok']:
